@@ -238,6 +238,11 @@ type hmConcCase struct {
 	Yield      int   `json:"yield_every"`
 	Procs      int   `json:"gomaxprocs"`
 	Noise      int   `json:"noise"` // 0 none, 1 yields at hook points, 2 yields and sleeps
+	// chain mode (TestC15_ChainConcurrent): every key of the program is translated into an integer that the initial
+	// table puts into one of Collide bucket chains; Churn colliding keys are inserted and removed in waves.
+	Collide int `json:"target_chains,omitempty"`
+	Metas   int `json:"meta_classes,omitempty"`
+	Churn   int `json:"churn_keys,omitempty"`
 }
 
 func genHMConc(t *rapid.T) hmConcCase {
@@ -263,6 +268,7 @@ const (
 	baseStable  = 2_000_000
 	baseRemoved = 3_000_000
 	baseFiller  = 4_000_000
+	baseChurn   = 5_000_000
 )
 
 func runHMConc(c hmConcCase) outcome {
@@ -281,6 +287,40 @@ func runHMConc(c hmConcCase) outcome {
 	setErr := func(e error) { firstErr.CompareAndSwap(nil, &e) }
 
 	nOwned := c.Goroutines * c.OwnedKeys
+	// km translates a program key into the integer stored in the table, rk translates back (identity outside chain mode;
+	// in chain mode both tables are complete before the first goroutine starts and read-only afterwards)
+	km := func(k int) int { return k }
+	rk := func(k int) int { return k }
+	if c.Collide > 0 {
+		ck := newChainKeys(m, c.Collide, c.Metas)
+		for i := 0; i < nOwned; i++ {
+			ck.keyOf(baseOwned + i)
+		}
+		for i := 0; i < c.Counters; i++ {
+			ck.keyOf(baseCounter + i)
+		}
+		for i := 0; i < c.Stable; i++ {
+			ck.keyOf(baseStable + i)
+		}
+		for i := 0; i < 50; i++ {
+			ck.keyOf(baseRemoved + i)
+		}
+		for i := 0; i < c.Churn; i++ {
+			ck.keyOf(baseChurn + i)
+		}
+		km = func(k int) int {
+			if a, ok := ck.fwd[k]; ok {
+				return a
+			}
+			return k + 1_000_000_000 // filler keys: not translated, far away from the translated integers
+		}
+		rk = func(a int) int {
+			if k, ok := ck.bwd[a]; ok {
+				return k
+			}
+			return a - 1_000_000_000
+		}
+	}
 	maxVer := c.OpsPerG + 2
 	// per owned key: kinds[v] = present?; started/completed version counters
 	kinds := make([][]bool, nOwned)
@@ -292,18 +332,18 @@ func runHMConc(c hmConcCase) outcome {
 	// stable and removed-before sets
 	for i := 0; i < c.Stable; i++ {
 		k := baseStable + i
-		m.Compute(k, func(*hnode) *hnode { return &hnode{k, 1} })
+		m.Compute(km(k), func(*hnode) *hnode { return &hnode{km(k), 1} })
 	}
 	for i := 0; i < 50; i++ {
 		k := baseRemoved + i
-		m.Compute(k, func(*hnode) *hnode { return &hnode{k, 1} })
+		m.Compute(km(k), func(*hnode) *hnode { return &hnode{km(k), 1} })
 	}
 	for i := 0; i < 50; i++ {
-		m.Compute(baseRemoved+i, func(*hnode) *hnode { return nil })
+		m.Compute(km(baseRemoved+i), func(*hnode) *hnode { return nil })
 	}
 	for i := 0; i < c.Counters; i++ {
 		k := baseCounter + i
-		m.Compute(k, func(*hnode) *hnode { return &hnode{k, 0} })
+		m.Compute(km(k), func(*hnode) *hnode { return &hnode{km(k), 0} })
 	}
 	var counterCalls, counterCallbacks atomic.Int64
 	var reads, checkedWindows atomic.Int64
@@ -311,12 +351,12 @@ func runHMConc(c hmConcCase) outcome {
 	readCheck := func(k int) {
 		idx := k - baseOwned
 		c0 := completed[idx].Load()
-		n := m.Get(k)
+		n := m.Get(km(k))
 		s1 := started[idx].Load()
 		reads.Add(1)
 		if n != nil {
 			x := int64(n.v)
-			if n.k != k {
+			if n.k != km(k) {
 				setErr(fmt.Errorf("Get(%d) returned a node of key %d", k, n.k))
 				return
 			}
@@ -356,7 +396,7 @@ func runHMConc(c hmConcCase) outcome {
 					started[idx].Store(v)
 					calls := 0
 					var sawV int64 = -1
-					m.Compute(k, func(n *hnode) *hnode {
+					m.Compute(km(k), func(n *hnode) *hnode {
 						calls++
 						if n != nil {
 							sawV = int64(n.v)
@@ -364,7 +404,7 @@ func runHMConc(c hmConcCase) outcome {
 							sawV = 0
 						}
 						if present {
-							return &hnode{k, int(v)}
+							return &hnode{km(k), int(v)}
 						}
 						return nil
 					})
@@ -383,7 +423,7 @@ func runHMConc(c hmConcCase) outcome {
 					}
 					ver[j] = v
 					// the owner must find its own write
-					n := m.Get(k)
+					n := m.Get(km(k))
 					if present && (n == nil || int64(n.v) != v) {
 						setErr(fmt.Errorf("owner of key %d wrote version %d and immediately read %v", k, v, n))
 					}
@@ -396,18 +436,18 @@ func runHMConc(c hmConcCase) outcome {
 				case r < 90: // counter
 					k := baseCounter + rng.Intn(c.Counters)
 					counterCalls.Add(1)
-					m.Compute(k, func(n *hnode) *hnode {
+					m.Compute(km(k), func(n *hnode) *hnode {
 						counterCallbacks.Add(1)
 						if n == nil {
 							setErr(fmt.Errorf("counter key %d vanished", k))
-							return &hnode{k, 1}
+							return &hnode{km(k), 1}
 						}
-						return &hnode{k, n.v + 1}
+						return &hnode{km(k), n.v + 1}
 					})
 				default: // iterate
 					seen := map[int]int{}
 					m.Range(func(n *hnode) bool {
-						seen[n.k]++
+						seen[rk(n.k)]++
 						return true
 					})
 					for k, cnt := range seen {
@@ -436,16 +476,48 @@ func runHMConc(c hmConcCase) outcome {
 			for w := 0; w < c.Waves && firstErr.Load() == nil; w++ {
 				for i := 0; i < c.Filler; i++ {
 					k := baseFiller + i
-					m.Compute(k, func(*hnode) *hnode { return &hnode{k, w} })
+					m.Compute(km(k), func(*hnode) *hnode { return &hnode{km(k), w} })
 				}
 				for i := 0; i < c.Filler; i++ {
-					if n := m.Get(baseFiller + i); n == nil {
+					if n := m.Get(km(baseFiller + i)); n == nil {
 						setErr(fmt.Errorf("filler key %d lost after insertion (wave %d)", baseFiller+i, w))
 						return
 					}
 				}
 				for i := 0; i < c.Filler; i++ {
-					m.Compute(baseFiller+i, func(*hnode) *hnode { return nil })
+					m.Compute(km(baseFiller+i), func(*hnode) *hnode { return nil })
+				}
+			}
+		}()
+	}
+	// chain mode: waves of colliding keys make the target chains grow by dozens of buckets and empty them again while
+	// the other goroutines walk those chains
+	if c.Collide > 0 && c.Churn > 0 {
+		wg.Add(1)
+		go func() {
+			defer wg.Done()
+			for w := 0; w < 2+c.Waves*2 && firstErr.Load() == nil; w++ {
+				for i := 0; i < c.Churn; i++ {
+					k := km(baseChurn + i)
+					m.Compute(k, func(*hnode) *hnode { return &hnode{k, w} })
+				}
+				for i := 0; i < c.Churn; i++ {
+					if n := m.Get(km(baseChurn + i)); n == nil || n.v != w {
+						setErr(fmt.Errorf("churn key %d (stored as %d) lost or stale after insertion (wave %d): %v", baseChurn+i, km(baseChurn+i), w, n))
+						return
+					}
+				}
+				for i := c.Churn - 1; i >= 0; i -= 2 { // odd positions first, then the rest: holes in the middle of the chains
+					m.Compute(km(baseChurn+i), func(*hnode) *hnode { return nil })
+				}
+				for i := c.Churn - 2; i >= 0; i -= 2 {
+					m.Compute(km(baseChurn+i), func(*hnode) *hnode { return nil })
+				}
+				for i := 0; i < c.Churn; i++ {
+					if n := m.Get(km(baseChurn + i)); n != nil {
+						setErr(fmt.Errorf("churn key %d (stored as %d) still found after its removal (wave %d)", baseChurn+i, km(baseChurn+i), w))
+						return
+					}
 				}
 			}
 		}()
@@ -459,7 +531,7 @@ func runHMConc(c hmConcCase) outcome {
 	want := c.Stable + c.Counters
 	for idx := 0; idx < nOwned; idx++ {
 		v := completed[idx].Load()
-		n := m.Get(baseOwned + idx)
+		n := m.Get(km(baseOwned + idx))
 		if kinds[idx][v] {
 			want++
 			if n == nil || int64(n.v) != v {
@@ -473,7 +545,7 @@ func runHMConc(c hmConcCase) outcome {
 	}
 	var sum int64
 	for i := 0; i < c.Counters; i++ {
-		if n := m.Get(baseCounter + i); n != nil {
+		if n := m.Get(km(baseCounter + i)); n != nil {
 			sum += int64(n.v)
 		}
 	}
@@ -500,6 +572,20 @@ func runHMConc(c hmConcCase) outcome {
 	}
 	g, s := m.VerifResizes()
 	o.NonTrivial = g > 0 && s > 0 && reads.Load() > 0
+	if c.Collide > 0 {
+		// overflow buckets are never unlinked, so the longest chain at quiescence is the longest chain of the run
+		// (unless the table was replaced by a growth in between)
+		longest := m.VerifMaxChain()
+		o.NonTrivial = longest >= 4 && reads.Load() > 0
+		for _, th := range []int{4, 10, 20} {
+			if longest >= th {
+				o.Classes = append(o.Classes, fmt.Sprintf("chain>=%d-buckets", th))
+			}
+		}
+		if c.Metas > 0 {
+			o.Classes = append(o.Classes, "equal-meta-hashes")
+		}
+	}
 	if g > 0 {
 		o.Classes = append(o.Classes, "grew-during-run")
 	}
@@ -522,5 +608,45 @@ func TestC15_Concurrent(t *testing.T) {
 			"non-trivial = at least one growth and one shrink happened and cross-goroutine reads were checked",
 		Assumptions: []string{"schedules are sampled by the Go runtime on up to 16 cores, not enumerated"},
 		Gen:         genHMConc, Run: runHMConc,
+	})
+}
+
+func genHMChainConc(t *rapid.T) hmConcCase {
+	c := hmConcCase{
+		Goroutines: rapid.IntRange(2, 12).Draw(t, "g"),
+		OwnedKeys:  rapid.IntRange(1, 6).Draw(t, "owned"),
+		OpsPerG:    rapid.IntRange(50, 3000).Draw(t, "ops"),
+		Counters:   rapid.IntRange(1, 3).Draw(t, "counters"),
+		Waves:      rapid.IntRange(1, 4).Draw(t, "waves"),
+		Seed:       rapid.Int64().Draw(t, "seed"),
+		Yield:      pick(t, "yield", 0, 0, 1, 16),
+		Procs:      pick(t, "procs", 16, 16, 2, 3, 6),
+		Noise:      pick(t, "noise", 0, 0, 1, 2),
+		Collide:    pick(t, "chains", 1, 1, 2, 3),
+	}
+	if rapid.Bool().Draw(t, "small") {
+		// 64 root buckets (growth above 240 keys): few enough candidates to ask for equal meta hashes as well
+		c.InitCap = 200
+		c.Metas = pick(t, "metas", 0, 1, 2)
+		c.Stable = rapid.IntRange(0, 60).Draw(t, "stable")
+		c.Churn = rapid.IntRange(0, 60).Draw(t, "churn")
+	} else {
+		// 512 root buckets (growth above 1920 keys)
+		c.InitCap = 1000
+		c.Stable = rapid.IntRange(0, 300).Draw(t, "stable")
+		c.Churn = rapid.IntRange(0, 250).Draw(t, "churn")
+		c.Filler = pick(t, "filler", 0, 0, 0, 3000) // a growth in the middle of the run re-seeds the hash: the long chains are copied
+	}
+	return c
+}
+
+func TestC15_ChainConcurrent(t *testing.T) {
+	propMain(t, propSpec[hmConcCase]{
+		Prop: "C15", Test: "ChainConcurrent",
+		Rule: "the free-running program of TestC15_Concurrent (single-writer registers, shared counters, Range, stable and removed-before key sets) with every key translated, through the read-only probe of the table's hash, into an integer that falls into one of 1-3 bucket chains of a table of 64 or 512 root buckets (optionally 1-2 distinct meta hashes), " +
+			"plus a churn goroutine that inserts up to 250 further colliding keys and removes them again (alternate positions first) in waves, so that lock-free lookups and iterations walk chains of dozens of linked buckets while they are rewritten; same oracle; " +
+			"non-trivial = a chain of >= 4 linked buckets existed and cross-goroutine reads were checked",
+		Assumptions: []string{"schedules are sampled by the Go runtime on up to 16 cores, not enumerated"},
+		Gen:         genHMChainConc, Run: runHMConc,
 	})
 }
